@@ -61,10 +61,10 @@ const (
 	xAny         // unspecified: anything but a crash
 )
 
-func wantOK() exp               { return exp{kind: xOK} }
-func wantErr(e ...uint32) exp   { return exp{kind: xErr, errs: e} }
-func wantFail() exp             { return exp{kind: xFail} }
-func wantAny() exp              { return exp{kind: xAny} }
+func wantOK() exp             { return exp{kind: xOK} }
+func wantErr(e ...uint32) exp { return exp{kind: xErr, errs: e} }
+func wantFail() exp           { return exp{kind: xFail} }
+func wantAny() exp            { return exp{kind: xAny} }
 func (e exp) String() string {
 	switch e.kind {
 	case xOK:
@@ -272,7 +272,7 @@ func (h *hist) check(fn, scen, desc string, got uint32, want exp) (bool, bool) {
 	}
 	h.logf("%s%s [%s] -> %s (model: %s)", fn, desc, scen, errName(got), want)
 	if h.g.trap != "" {
-		h.violate("trap:"+fn+":"+scen, h.g.trap)
+		h.violate("trap:"+fn+":"+sigScen(scen), h.g.trap)
 		return false, false
 	}
 	ok := true
@@ -408,12 +408,13 @@ func (h *hist) closedFd() int32 {
 	if r.Bool() {
 		return h.m.lowestFree()
 	}
-	for {
+	for k := 0; k < 8; k++ {
 		fd := int32(firstFreeFd + r.Intn(12))
 		if h.m.fds[fd] == nil {
 			return fd
 		}
 	}
+	return h.m.lowestFree()
 }
 
 type pathPick struct {
@@ -871,7 +872,11 @@ func (h *hist) opPathOpen(hn *hint) {
 	}
 	var oflags, fdflags uint32
 	var rights uint64
-	if r.Chance(35, 100) {
+	creatPct := 30
+	if pp.start != nil && pp.res.node == nil && pp.res.err == 0 && !pp.res.escape {
+		creatPct = 65 // a missing name: mostly create it
+	}
+	if r.Chance(creatPct, 100) {
 		oflags |= oCREAT
 		if r.Chance(1, 4) {
 			oflags |= oEXCL
@@ -1686,7 +1691,11 @@ func (h *hist) opMkdir(hn *hint) {
 	if e, bad := pp.lookupErr(); bad {
 		want = e
 		if pp.res.err == eNOTDIR && !pp.res.escape && pp.cls != "filefd" && pp.cls != "closed" {
-			want = wantErr(eNOTDIR, eNOENT) // wazero documents ENOENT here
+			want = wantErr(eNOTDIR, eNOENT).because("lookup-ENOTDIR") // wazero documents ENOENT here
+			if pp.res.node != nil {
+				// "file/" : the name exists (EEXIST) and is not a directory (ENOTDIR)
+				want = wantErr(eNOTDIR, eNOENT, eEXIST).because("existing-file-with-trailing-slash")
+			}
 		}
 	} else if pp.res.node != nil {
 		want = wantErr(eEXIST)
